@@ -18,7 +18,7 @@ Import ListNotations.
 Inductive act := AAdd (r : rule) | ARem (r : rule) | AQueue (r : rule).
 
 Definition ref_subs : rule -> nat := fun _ => 5.
-Definition ref_conn (hl : list (hid * rule)) : conn :=
+Definition ref_conn (hl : list sub) : conn :=
   {| subs := ref_subs; pend := []; held := hl; thr := []; evs := [] |}.
 
 Definition delta (U : list rule) (c : conn) : list act :=
@@ -29,8 +29,8 @@ Definition delta (U : list rule) (c : conn) : list act :=
                      end) U
   ++ map AQueue (pend c).
 
-Fixpoint prog_actions (fuel : nat) (U : list rule) (hl : list (hid * rule)) (p : prog)
-  : option (list act * list (hid * rule)) :=
+Fixpoint prog_actions (fuel : nat) (U : list rule) (hl : list sub) (p : prog)
+  : option (list act * list sub) :=
   match p with
   | [] => Some ([], hl)
   | i :: rest =>
@@ -45,10 +45,10 @@ Fixpoint prog_actions (fuel : nat) (U : list rule) (hl : list (hid * rule)) (p :
       end
   end.
 
-Definition op_actions (U : list rule) (hl : list (hid * rule)) (o : op) : option (list act * list (hid * rule)) :=
+Definition op_actions (U : list rule) (hl : list sub) (o : op) : option (list act * list sub) :=
   prog_actions (4 * (List.length hl + 4)) U hl (prog_of o).
 
-Definition item_actions (U : list rule) (hl : list (hid * rule)) (it : item) : option (list act * list (hid * rule)) :=
+Definition item_actions (U : list rule) (hl : list sub) (it : item) : option (list act * list sub) :=
   match it with
   | IOp o => op_actions U hl o
   | IOp2 o1 o2 =>
@@ -152,7 +152,7 @@ Inductive verdict := Accepts | RejectsAt (k : N) | OutOfFuel (k : N).
 (* every observed event must be about a rule of the universe *)
 Definition events_known (U : list rule) (new : list ev) : bool := forallb (fun e => mem_rule (ev_rule e) U) new.
 
-Fixpoint check_from (k : N) (U : list rule) (hl : list (hid * rule)) (states : list (list pstate))
+Fixpoint check_from (k : N) (U : list rule) (hl : list sub) (states : list (list pstate))
   (run : list (item * list ev)) : verdict :=
   match run with
   | [] => Accepts
